@@ -21,7 +21,9 @@ def b3_configs(tier):
         return [("single-run-len4", dict(spans=u, maxlen=4, batches=(1, 2, 3, 5), invs=store.INVS_INGEST)),
                 ("two-runs-len2-cleaning", dict(spans=u, maxlen=2, batches=(1, 2, 3), maxruns=2, clean_on=True,
                                                 invs=store.INVS_INGEST))]
-    return [("single-run-len5", dict(spans=u, maxlen=5, batches=(1, 2, 3, 4, 6), invs=store.INVS_INGEST, timeout=3000)),
+    u1 = [x for x in u if x["job"] == "j1"]
+    return [("single-run-len4-two-traces", dict(spans=u, maxlen=4, batches=(1, 2, 3, 5), invs=store.INVS_INGEST, timeout=3000)),
+            ("single-run-len5", dict(spans=u1, maxlen=5, batches=(1, 2, 3, 4, 6), invs=store.INVS_INGEST, timeout=3000)),
             ("two-runs-len3-cleaning", dict(spans=u, maxlen=3, batches=(1, 2, 3, 4), maxruns=2, clean_on=True,
                                             invs=store.INVS_INGEST, timeout=3000)),
             ("simulate-4-runs-len8", dict(spans=u, maxlen=8, batches=(1, 2, 3, 4, 6, 9), maxruns=4, clean_on=True,
@@ -31,7 +33,9 @@ def b3_configs(tier):
 def scenarios(tier, seed):
     if tier == "quick":
         return storegen.c10_exhaustive(3) + storegen.c10_random(400, seed)
-    return storegen.c10_exhaustive(4, batches=(1, 2, 3, 4, storegen.BIG)) + storegen.c10_random(4000, seed)
+    # length 4 over the 12 records of one trace, lengths 1-3 over all 14 (with the id re-used under another trace id)
+    return storegen.c10_exhaustive(3, batches=(1, 2, 3, 4, storegen.BIG)) + \
+        storegen.c10_exhaustive(4, batches=(1, 2, 3, 4, storegen.BIG), base_only=True, only_len=4) + storegen.c10_random(4000, seed)
 
 
 def run(chk, tier, seed):
